@@ -152,8 +152,10 @@ func canonSubs(s *astisub.Subtitles) string {
 		}
 	}
 	var rk []string
-	for k := range s.Regions {
-		rk = append(rk, k)
+	for k, v := range s.Regions {
+		if v != nil { // a nil definition is not a definition
+			rk = append(rk, k)
+		}
 	}
 	sort.Strings(rk)
 	o = append(o, strconv.Itoa(len(rk)))
@@ -162,8 +164,10 @@ func canonSubs(s *astisub.Subtitles) string {
 		o = append(o, "D", encStr(r.ID), refID(r.Style), canonAttrs(r.InlineStyle))
 	}
 	var sk []string
-	for k := range s.Styles {
-		sk = append(sk, k)
+	for k, v := range s.Styles {
+		if v != nil {
+			sk = append(sk, k)
+		}
 	}
 	sort.Strings(sk)
 	o = append(o, strconv.Itoa(len(sk)))
